@@ -60,6 +60,14 @@ nsync_time nsync_from_time_point_ (nsync_cpp_time_point_ tp) {
 	memset (&ts, 0, sizeof (ts));
 	ts.tv_sec = ns / NSYNC_NS_IN_S_;
 	ts.tv_nsec = (long) (ns - ts.tv_sec * NSYNC_NS_IN_S_);
+	if (ts.tv_nsec < 0) {
+		/* Division truncates toward zero:  for a time before the epoch
+		   that is not a whole number of seconds, borrow a second so that
+		   0 <= tv_nsec < NSYNC_NS_IN_S_, as every struct timespec
+		   consumer (and the kernel) requires.  */
+		ts.tv_sec--;
+		ts.tv_nsec += NSYNC_NS_IN_S_;
+	}
 	return (ts);
 }
 
